@@ -200,44 +200,54 @@ def check(ctx):
                (f"the key of a DESCENDING sort is returned without an order reversal ({norm(leaf)}): dir=-1 sorts ascending" if desc else
                 f"the key of an ASCENDING sort is returned reversed ({norm(leaf)})"), clause="in the requested directions")
     ctx.count("direction-specific returns of sort_key", n_dirret, 2)
-    # fixed-width string keys: missing values ('') are replaced by a maximal sentinel, so that they sort last when ascending
+    # string keys with missing values.  (a) No string constant may stand for "missing" in a key: every string can occur in
+    # the data, so some real value sorts after (or ties with) the constant and the missing rows are no longer last.
+    # (b) In the world where the key HAS missing values, no return of sort_key hands a string-class key to lexsort as it
+    # is ('' sorts before every string); rank() is what places the missing values last.
     from ..pattern import pstmt as _ps
-    sent = [n for n in body_nodes(key.node) if isinstance(n, ast.Assign) and _ps("_V[_V.is_na()] = _C", n) is not None]
-    sent_alt = {}
-    if not sent:
-        # the mask taken first and reused: na = column.is_na(); ...; column = column.copy(); column[na] = SENTINEL
-        for n in body_nodes(key.node):
-            b_ = _ps("_V[_M] = _C", n) if isinstance(n, ast.Assign) else None
-            if b_ is None or not isinstance(b_["_V"], ast.Name) or not isinstance(b_["_M"], ast.Name):
-                continue
-            v_, m_ = b_["_V"].id, b_["_M"].id
-            mdefs = defs_reaching(key, m_, n)
-            if len(mdefs) != 1 or mdefs[0].value is None or norm(mdefs[0].value) != f"{v_}.is_na()" or mdefs[0].node is None:
-                continue
-            at_mask = {id(d.node) for d in defs_reaching(key, v_, mdefs[0].node.ast)}
-            later = [d for d in defs_reaching(key, v_, n) if id(d.node) not in at_mask]
-            if all(d.value is not None and norm(d.value) == f"{v_}.copy()" for d in later):
-                sent.append(n)
-                sent_alt[id(n)] = b_
-    _ps0 = _ps
-    _ps = lambda pat, n: (sent_alt[id(n)] if id(n) in sent_alt else _ps0(pat, n))
     from ..dtclass import analyse as _an
     from ..facts import cfg_node_of as _cn
-
-    def _only_fixed(n):
-        v = _ps("_V[_V.is_na()] = _C", n)["_V"]
-        if not isinstance(v, ast.Name):
-            return False
-        _cfg, IN = _an(key, v.id)
-        nd = _cn(key, n)
-        st = IN.get(nd.id) if nd is not None else None
-        return st is not None and st <= {"SF"}
-    oks = bool(sent) and all(_only_fixed(n) for n in sent) \
-        and all(isinstance(_ps("_V[_V.is_na()] = _C", n)["_C"], ast.Constant) and _ps("_V[_V.is_na()] = _C", n)["_C"].value == "\uffff" for n in sent)
-    ctx.ob("ORD-key", key, norm(sent[0]) if sent else "column[column.is_na()] = '\\uffff' for fixed-width string keys", sent[0] if sent else key.node, oks,
-           "missing strings ('' in a fixed-width column) are keyed by the largest code point, so they sort after every real string" if oks else
-           "fixed-width string keys keep '' for their missing values (or get another sentinel): '' sorts BEFORE every string, so rows "
-           "with a missing key come first in an ascending sort", clause="Rows whose key is missing are placed ... at the end whenever that key is sorted ascending")
+    n_inband = 0
+    for n in [m for m in body_nodes(key.node) if isinstance(m, ast.Assign)]:
+        b_ = _ps("_V[_M] = _C", n)
+        if b_ is None or not (isinstance(b_["_C"], ast.Constant) and isinstance(b_["_C"].value, str)):
+            continue
+        mtxt = norm(b_["_M"])
+        if isinstance(b_["_M"], ast.Name):
+            md = defs_reaching(key, b_["_M"].id, n)
+            mtxt = " ".join(norm(d.value) for d in md if d.value is not None)
+        if "is_na()" not in mtxt:
+            continue
+        n_inband += 1
+        ctx.ob("ORD-key", key, norm(n), n, False,
+               f"the string constant {b_['_C'].value!r} stands for the missing values of a string key: it is an ordinary string, so a value "
+               f"that sorts after it (any text starting with a code point above U+{ord(b_['_C'].value[0]) if b_['_C'].value else 0:04X}) or equal to it is placed after / among "
+               f"the rows whose key is missing -- they are not at the end of an ascending sort and not at one end of a descending one",
+               clause="Rows whose key is missing are placed together at one end of their tie group, and at the end whenever that key is sorted ascending")
+    kvars = sorted({norm(r.value.operand if isinstance(r.value, ast.UnaryOp) else r.value) for r in body_nodes(key.node)
+                    if isinstance(r, ast.Return) and r.value is not None
+                    and isinstance(r.value.operand if isinstance(r.value, ast.UnaryOp) else r.value, ast.Name)})
+    n_kret = 0
+    for kv in kvars:
+        _cfg, IN = _an(key, kv, assume_true=(f"{kv}.is_na().any()",))
+        for r in [m for m in body_nodes(key.node) if isinstance(m, ast.Return) and m.value is not None]:
+            core = r.value.operand if isinstance(r.value, ast.UnaryOp) else r.value
+            if not (isinstance(core, ast.Name) and core.id == kv):
+                continue
+            nd = _cn(key, r)
+            st = IN.get(nd.id) if nd is not None else None
+            if st is None:
+                continue
+            n_kret += 1
+            bad = sorted(set(st) & {"SF", "SV"})
+            ctx.ob("ORD-key", key, f"return {norm(r.value)}: no string-class key with missing values reaches lexsort", r, not bad,
+                   "with missing values present, string keys have been replaced by their rank (missing ranked last) before this return" if not bad else
+                   f"a {'fixed-width' if 'SF' in bad else 'variable-width'} string key that has missing values can reach this return as it is: "
+                   f"missing strings are '' and sort BEFORE every string, so rows with a missing key come first in an ascending sort",
+                   clause="Rows whose key is missing are placed ... at the end whenever that key is sorted ascending")
+    _an(key, "column")     # leave the engine without a standing hypothesis
+    ctx.count("returns of sort_key judged for string keys with missing values", n_kret, 2)
+    ctx.note(f"ORD-key: {n_inband} in-band string sentinel(s) in sort_key")
     # the argsort optimisation keeps the key in the string family: only there does is_na() (== '') still find the
     # missing values that the sentinel / rank step places last
     opt = repo.functions.get(f"{VEC}._optimize_for_argsort")
